@@ -94,6 +94,15 @@ def constructors(ctx, shape, lkinds, dkind='f'):
         for name in ('zeros', 'ones', 'empty', 'nans'):
             forms[name] = helper(name)
 
+        def helper_dict(name):
+            def f():
+                h = getattr(da, name)(axes=dict(reversed([(d, l) for d, l in zip(dims, labs())])), dims=list(dims))
+                h.values[...] = vals()
+                return h
+            return f
+        for name in ('zeros', 'ones', 'empty', 'nans'):
+            forms[name + '-dict-reversed+dims'] = helper_dict(name)
+
         def like(name):
             def f():
                 base = da.DimArray(vals(), axes=[(d, l) for d, l in zip(dims, labs())])
@@ -353,6 +362,9 @@ def rejections(ctx, case):
         'axes-setter-wrong-size-pairs': lambda: setattr(da.DimArray(v23()), 'axes', [A(l3, 'x'), A(l3, 'y')]),
         'axis-values-wrong-size': lambda: setattr(da.DimArray(v23()).axes[0], 'values', ctx.nparray(l3, kind='i')),
         # a scalar is not a sequence of labels, not even for a dimension of length 1
+        # a dict of labels with dims= in an order that contradicts the data shape
+        'dict-dims-contradict-shape': lambda: da.DimArray(v23(), axes={'a': ctx.nparray(l3, kind='i'), 'b': ctx.nparray(l2, kind='i')}, dims=['a', 'b']),
+        'zeros-dict-dims-contradict-shape': lambda: da.zeros(axes={'a': ctx.nparray(l3, kind='i'), 'b': ctx.nparray(l2, kind='i')}, dims=['a', 'b'], shape=(2, 3)),
         'scalar-labels-pairs': lambda: da.DimArray(ctx.nparray([ctx.real('s')], kind='f'), axes=[('x', ctx.int('lab'))]),
         'scalar-labels-dict': lambda: da.DimArray(ctx.nparray([ctx.real('s')], kind='f'), axes={'x': ctx.int('lab')}, dims=['x']),
         'scalar-labels-zeros': lambda: da.zeros(axes=[('x', ctx.int('lab'))]),
@@ -398,7 +410,7 @@ def templates():
     for case in ('wrong-length', 'swapped-lengths', 'too-few-axes', 'too-many-axes', 'scalar-with-axis', 'too-few-axes-Axis', 'duplicate-names-pairs', 'duplicate-names-dims',
                  'duplicate-names-Axis', 'duplicate-names-shape-only', 'empty-name', 'zeros-shape-mismatch', 'values-setter-wrong-shape',
                  'axes-setter-wrong-size-Axes', 'axes-setter-wrong-size-pairs', 'axis-values-wrong-size', 'axes-item-wrong-size',
-                 'scalar-labels-pairs', 'scalar-labels-dict', 'scalar-labels-zeros', 'scalar-labels-Axis', 'scalar-labels-axes-setitem', 'scalar-labels-axis-values', 'scalar-labels-newaxis'):
+                 'dict-dims-contradict-shape', 'zeros-dict-dims-contradict-shape', 'scalar-labels-pairs', 'scalar-labels-dict', 'scalar-labels-zeros', 'scalar-labels-Axis', 'scalar-labels-axes-setitem', 'scalar-labels-axis-values', 'scalar-labels-newaxis'):
         add('reject-%s' % case, 'rejections', cost=0.1, case=case)
     for how in ('dims', 'axis.name', 'set_axis'):
         add('rename-duplicate-%s' % how, 'rename_duplicate', cost=0.1, how=how)
